@@ -201,8 +201,11 @@ func geom2Shp(g geom.Geom) (shp.Shape, error) {
 		// The four corners as they are (also of a box without any point, whose
 		// Polygons() is empty): a Null shape cannot be used here, the reader
 		// takes every record of a polygon file for a polygon.
+		// The closing vertex is written out: in a box without height the
+		// fourth corner lies on the first one, and geom2polygon would take
+		// the ring of four for a closed one.
 		b := g.(*geom.Bounds)
-		return geom2polygon(geom.Polygon{{b.Min, {X: b.Max.X, Y: b.Min.Y}, b.Max, {X: b.Min.X, Y: b.Max.Y}}}), nil
+		return geom2polygon(geom.Polygon{{b.Min, {X: b.Max.X, Y: b.Min.Y}, b.Max, {X: b.Min.X, Y: b.Max.Y}, b.Min}}), nil
 	case geom.LineString:
 		return geom2polyLine(geom.MultiLineString{g.(geom.LineString)}), nil
 	case geom.MultiLineString:
